@@ -436,6 +436,12 @@ class _CallOfChoice(ast.NodeTransformer):
                 return ast.copy_location(ast.BinOp(left=node.args[0], op=self._BIN[node.func.attr](), right=node.args[1]), node)
             if node.func.attr in self._CMP:
                 return ast.copy_location(ast.Compare(left=node.args[0], ops=[self._CMP[node.func.attr]()], comparators=[node.args[1]]), node)
+        # N11b: np.reciprocal(x) is 1 / x (marked: the ufunc keeps an integer dtype, the operator does not - trap T10 asks)
+        if isinstance(node.func, ast.Attribute) and isinstance(node.func.value, ast.Name) and node.func.value.id in ("np", "numpy") and node.func.attr == "reciprocal" and len(node.args) == 1 and not any(isinstance(a, ast.Starred) for a in node.args) and not any(k.arg in ("out", "where") for k in node.keywords):
+            r = ast.copy_location(ast.BinOp(left=ast.copy_location(ast.Constant(value=1), node), op=ast.Div(), right=node.args[0]), node)
+            r._reciprocal_dtype = next((k.value for k in node.keywords if k.arg == "dtype"), None)
+            r._reciprocal = True
+            return r
         if isinstance(node.func, ast.IfExp) and isinstance(node.func.body, (ast.Name, ast.Attribute)) and isinstance(node.func.orelse, (ast.Name, ast.Attribute)):
             import copy as _copy
 
